@@ -18,13 +18,15 @@ Trace == ndJsonDeserialize(IOEnv.TRACE)
 \* effects of different writers commute and the state at any instant is the union of what each writer
 \* has published so far.  Per writer: states[w][j+1] = its live map after j of its operations.
 WriterIds == {"w1", "w2"}
-VARIABLES l, failed, stat, states, starts, ends, wlive
-tvars == <<l, failed, stat, states, starts, ends, wlive, live, conns, localDone, hist>>
+VARIABLES l, failed, stat, states, starts, ends, wlive,
+          refuse   \* protocol -> the ways a state WITHOUT a backend for the method answers it (calibrated, see TCalib)
+tvars == <<l, failed, stat, states, starts, ends, wlive, refuse, live, conns, localDone, hist>>
 Stat0 == [ops |-> 0, reqs |-> 0, overlapping |-> 0, served |-> 0, refused |-> 0, twoWriters |-> 0]
 NoLive == [m \in HMethods |-> {}]
 TInit == /\ HInit /\ l = 1 /\ failed = {} /\ stat = Stat0
          /\ states = [w \in WriterIds |-> <<NoLive>>] /\ starts = [w \in WriterIds |-> <<>>] /\ ends = [w \in WriterIds |-> <<>>]
          /\ wlive = [w \in WriterIds |-> NoLive]
+         /\ refuse = [p \in {"http", "implicit", "grpc"} |-> {"unimplemented", "notfound"}]
 IsEv(e) == l <= Len(Trace) /\ Trace[l].ev = e
 
 TRegOp ==
@@ -40,7 +42,16 @@ TRegOp ==
         /\ failed' = failed \cup (IF e.crash # "" THEN {<<0, l, "SafeOps">>} ELSE {})
                               \cup (IF ~e.ok /\ op.op \in {"reglocal", "regconn", "reregister", "dropconn"} THEN {<<0, l, "OpResult">>} ELSE {})
         /\ stat' = [stat EXCEPT !.ops = @ + 1]
-  /\ l' = l + 1 /\ UNCHANGED <<live, conns, localDone, hist>>
+  /\ l' = l + 1 /\ UNCHANGED <<refuse, live, conns, localDone, hist>>
+
+\* Calibration: how this tree answers a method nobody serves, per protocol, as observed in every state of the
+\* sequential histories of the same run (NotFound when the route goes with the backend, Unimplemented when the route
+\* stays).  A concurrent request answered in a way NO single state answers - e.g. Unimplemented on a route whose rule
+\* always leaves with its last backend - was resolved against two states.
+TCalib ==
+  /\ IsEv("Calib")
+  /\ refuse' = [p \in DOMAIN refuse |-> IF p \in DOMAIN Trace[l].refuse THEN {Trace[l].refuse[p][k] : k \in DOMAIN Trace[l].refuse[p]} ELSE refuse[p]]
+  /\ l' = l + 1 /\ UNCHANGED <<failed, stat, states, starts, ends, wlive, live, conns, localDone, hist>>
 
 \* number of elements of the increasing sequence s that are < x (binary search)
 RECURSIVE CountBelowIn(_, _, _, _)
@@ -58,7 +69,7 @@ TReq ==
          hi(w) == CountBelow(starts[w], e.e)     \* operations of w possibly published
          cand == {Join2(states["w1"][j1 + 1], states["w2"][j2 + 1]) : j1 \in lo("w1")..hi("w1"), j2 \in lo("w2")..hi("w2")}
          okIn(lv) == IF e.k = "served" THEN e.by \in lv[e.m]
-                     ELSE IF e.k \in {"unimplemented", "notfound"} THEN lv[e.m] = {}
+                     ELSE IF e.k \in {"unimplemented", "notfound"} THEN lv[e.m] = {} /\ e.k \in refuse[e.proto]
                      ELSE FALSE
          bad == (IF e.k = "panic" THEN {"Panic"} ELSE
                  (IF ~\E lv \in cand : okIn(lv) THEN
@@ -68,9 +79,9 @@ TReq ==
                                 !.twoWriters = @ + (IF hi("w1") > lo("w1") /\ hi("w2") > lo("w2") THEN 1 ELSE 0),
                                 !.served = @ + (IF e.k = "served" THEN 1 ELSE 0),
                                 !.refused = @ + (IF e.k \in {"unimplemented", "notfound"} THEN 1 ELSE 0)]
-  /\ l' = l + 1 /\ UNCHANGED <<states, starts, ends, wlive, live, conns, localDone, hist>>
+  /\ l' = l + 1 /\ UNCHANGED <<states, starts, ends, wlive, refuse, live, conns, localDone, hist>>
 
-TSpec == TInit /\ [][TRegOp \/ TReq]_tvars
+TSpec == TInit /\ [][TRegOp \/ TReq \/ TCalib]_tvars
 Report == l > Len(Trace) =>
             PrintT(<<"REPORT", ToJson([consumed |-> l - 1, len |-> Len(Trace), failed |-> failed, stat |-> stat])>>)
 =============================================================================
